@@ -79,6 +79,28 @@ class Engine(BaseEngine):
                 out.append(("random", "match %s %s" % (C.t_filter(self.rand_filter(rng)), C.t_event(e))))
             else:
                 out.append(("near", "match %s %s" % (C.t_filter(self.near_filter(rng, e)), C.t_event(e))))
+        # values that straddle two adjacent slots of a packed array: a kind made of the high byte of one listed kind and the
+        # low byte of the next, an id / author made of the tail of one listed value and the head of the next; everything
+        # else in the filter accepts the event, so only a slot-aligned comparison refuses it
+        for i in range(300 if tier == "quick" else 6000):
+            e = rand_event(rng)
+            f = {"ids": [], "authors": [], "kinds": [], "tags": [], "since": None, "until": None, "limit": None}
+            which = rng.choice(["kinds", "kinds", "ids", "authors"])
+            if which == "kinds":
+                ks = [rng.choice([1, 2, 256, 257, 30023, 1059, 65535, 0, 255, 4660, 13398]) for _ in range(rng.choice([2, 2, 3, 5]))]
+                j = rng.randrange(len(ks) - 1)
+                e["kind"] = (ks[j] >> 8) | ((ks[j + 1] & 0xFF) << 8)
+                f["kinds"] = ks
+            else:
+                pool = [bytes([(7 * v + w) % 256 for w in range(32)]) for v in range(4)]
+                vs = [rng.choice(pool) for _ in range(rng.choice([2, 2, 3]))]
+                j, k = rng.randrange(len(vs) - 1), rng.randrange(1, 32)
+                mixed = vs[j][k:] + vs[j + 1][:k]
+                if which == "ids":
+                    e["id"], f["ids"] = mixed, vs
+                else:
+                    e["pk"], f["authors"] = mixed, vs
+            out.append(("slot-straddle", "match %s %s" % (C.t_filter(f), C.t_event(e))))
         # exhaustive small universe: every filter with <=1 entry per list and <=1 constraint of <=2 values
         # x every event with <=2 tags over small pools
         ids, aus, ks = IDS[:2], AUTHORS[:2], [1, 7]
